@@ -32,7 +32,7 @@ CHECKS = {
    level="fault_enumeration",
    text="Complete enumeration, per base message, of truncations, single-bit flips, length/count boundary overwrites and type-code replacements (plus unstructured input) fed to the safe decoders (read walk, skip, read_message_begin, ApplicationException::decode; sync+async; binary, binary_le, compact) under a panic monitor, counting allocator, CPU meter, poll-budget executor and process supervisor; strict prefixes must be rejected.",
    design="6/C09",
-   note="Hand-written decoders + every generated type's decode/decode_async (2 MiB stack, F_T = max(256, 4 x size_of::<T>)). Bounds: alloc <= 64 KiB + 256 x len, CPU <= 20 ms + 50 us/byte, polls <= 16 x len + 256. Unchecked reader excluded by its contract.",
+   note="Hand-written decoders + every generated type's decode/decode_async (2 MiB stack, F = max(256, 4 x the largest size_of among the types of the corpus)). Bounds: alloc <= 64 KiB + 256 x len, CPU <= 20 ms + 50 us/byte, polls <= 16 x len + 256. Unchecked reader excluded by its contract.",
    technique="runtime monitoring: fault enumeration under allocator/panic/CPU/poll monitors in supervised workers"),
  "C11": dict(
    level="exploration",
@@ -92,19 +92,19 @@ CHECKS = {
    level="exploration",
    text="Builder-as-child-process monitor over programs x configurations: hostile-named G_thrift documents (+ fixed directed documents) built in 16 configurations; observations = exit status/stderr of pilota-build and rustc diagnostics (cargo check of a crate that include!s every output as a module against the working tree's pilota).",
    design="6/C14",
-   note="Thrift documents (hostile names) and G_proto documents (plain names). Uniqueness of names only in Thrift's own terms. Six prelude names and recursive unions are covered by directed documents (recorded findings), not by the random profile.",
+   note="Thrift documents (hostile names, six namespace layouts incl. multi-segment paths that differ in the middle) and G_proto documents (plain names). Uniqueness of names only in Thrift's own terms. Directed documents present in every run: shapes a random document has only by chance (double set/map keys with int literals, struct literals naming boxed fields, triple name collisions, constants/literals on typedef'd fields, package-less .proto in split mode) plus the recorded findings (prelude names, recursive unions, oneof recursion).",
    technique="runtime monitoring: child-process status + compiler diagnostics over generated programs"),
  "C17": dict(
    level="exploration",
    text="Output-equality monitor over schedules: each corpus built R times in fresh processes (fresh hash seeds) x RAYON_NUM_THREADS in {1..16} x jitter hook x concurrent builders, in single/split/workspace mode; file set and contents must be identical; the hook's order log reports how many distinct task completion orders were actually seen (floor >= 5).",
    design="6/C17",
-   note="Schedules are sampled. Thrift and protobuf corpora. Needs the cfg(pilota_verif) hook for jitter/order observation; without it the equality oracle still runs but the order floor is unmet (inconclusive).",
+   note="Schedules are sampled. Thrift (incl. 'sparse' corpora: ~90 definitions of which 6 services reach a part, built with ignore_unused(true) = Builder default) and protobuf corpora. Needs the cfg(pilota_verif) hook for jitter/order observation; without it the equality oracle still runs but the order floor is unmet (inconclusive).",
    technique="runtime monitoring: process repetition under injected jitter, file-content comparison, observed-order counting"),
  "C05": dict(
    level="exploration",
    text="Bytes-only oracle over .proto programs x inputs: G_proto corpora (proto2+proto3, a fixed all-kinds message, a recursive message) compiled by pilota-build {single, split, + pilota built with pb-encode-default-value}; reference-encode -> Message::decode -> encode -> reference-decode equality, encoded_len == bytes, typed round trip, length-delimited framing consumes exactly its frame.",
    design="6/C05",
-   note="The runtime field codecs (pilota::prost::encoding::*) are exercised through the generated messages (every scalar kind in singular/repeated/packed/map/oneof position via the fixed all-kinds message), not through hand-written Message impls; groups are only covered as unknown fields. NaN and -0.0 are not generated.",
+   note="Two kinds of programs: messages generated by pilota-build, and hand-written Message impls of harness/pbrt (the wrapper-type impls of prost/types.rs; Kitchen: encode_packed/encoded_len_packed of every numeric kind, std String, Vec<u8>, btree_map and hash_map, oneof, field numbers 15/16, 2047/2048, 2^28-1, 2^29-1; R9 with groups). Values include runs of 16..165 scalars, 127/128/300-byte strings and 40-entry maps (length-prefix boundaries). NaN and -0.0 are not generated.",
    technique="runtime monitoring: differential oracle vs independent schema-driven reference codec over generated programs"),
  "C06": dict(
    level="exploration",
@@ -116,7 +116,7 @@ CHECKS = {
    level="fault_enumeration",
    text="Fault enumeration on generated message decoders (every truncation, bit flips, every top-level length prefix overwritten with boundary values, unstructured bytes) under panic/allocator monitors in supervised workers; claimed-length metamorphic check (peak allocation independent of the claimed length); nesting depth 1..300 of embedded messages (singular/repeated/map value) and unknown groups against the documented limit of 100 on a 2 MiB stack.",
    design="6/C10",
-   note="Generated messages and the runtime codecs they call; the well-known wrapper impls of types.rs and decode_length_delimiter are not driven separately yet.",
+   note="Generated messages, the hand-written messages of harness/pbrt (wrapper-type impls of types.rs, packed/btree_map/group codecs) and the length-delimited framing (decode_length_delimited on every input); depth probes include known groups (hand-written R9 field 6).",
    technique="runtime monitoring: fault enumeration under allocator/panic monitors, supervised processes"),
  "C18": dict(
    level="exploration",
